@@ -3,6 +3,8 @@ LEVEL = "other"
 CONTRACT_MODULES = ["contracts.optimize", "contracts.matrixutils"]
 FUNCTIONS = ["MeritFunctionForMatch._clip_to_max_steps", "MeritFunctionForMatch._x_to_knobs", "MeritFunctionForMatch._knobs_to_x",
              "JacobianSolver.step@limit-block", "Optimize.set_knobs_from_x", "MeritFunctionForMatch.__call__@knob-block", "Optimize.step@self-calls"]
+# take_best reloads a logged row (knob values AND active flags): which rows it may pick is decided under C15
+BORROW = [("C15", ["Optimize.step@start-row-block", "Optimize.step@take-best-block", "Optimize.reload@restore-block"])]
 RAC = "rac/c10.py"
 RAC_BUDGET = {"quick": 60, "thorough": 900}
 RAC_MIN = {"quick": 519, "thorough": 519}      # fewer run-time evaluations than this = the harness skipped its work: checker broken, not "held"
